@@ -459,3 +459,21 @@ specialise(
     bounds="empty header columns between / before the data columns fixed per instance (0, 1, 3, 20 interior; 0-1 leading); the worksheet is a model of the openpyxl API (container parsing itself is outside the claim)",
     weight=10,
 )
+
+
+# ---- g: dict delivery without header rows: same itemsets CSV as the sheet with its header row --------
+from harness.C09 import c09_itemsets  # noqa: E402
+
+shims.s6_csv_writer()
+specialise(
+    "C12",
+    "g.dict-itemsets",
+    c09_itemsets,
+    {"nest": [0, 2]},
+    timeout=400,
+    kernel=("pyxform.utils:external_choices_to_csv", "pyxform.utils:has_external_choices", "pyxform.xls2json_backends:get_xlsform", "pyxform.xls2json:workbook_to_json"),
+    shims=("S1", "S2", "S4", "S6"),
+    symbolic="explicit external_choices header row supplied (as the md/xlsx readers do) or not (plain dict delivery) (boolean), presence of optional cells on two sparse rows (3 booleans), two symbolic characters inside cell texts",
+    bounds="2 external_choices rows x 5 columns; the itemsets CSV must be the sheet image under either delivery",
+    weight=60,
+)
